@@ -184,6 +184,14 @@ func (e *Exec) utf8Valid(bs []Int) bool {
 	return e.decide(valid[0])
 }
 
+// exportPoint gives the harness a turn at every constructor call of an
+// export (a point at which concurrent line processing may arrive).
+func (e *Exec) exportPoint() {
+	if h := e.sh.entry.Pkg.Func("c12WriterPoint"); h != nil {
+		e.call(h, nil)
+	}
+}
+
 func init() {
 	stubs[promPkg+".NewDesc"] = func(e *Exec, fn *ssa.Function, args []value) value {
 		ls, _ := args[2].([]value)
@@ -198,6 +206,7 @@ func init() {
 		// the client library refuses unrepresentable names/labels: the
 		// refusals of client_golang (promRefuses) are modelled, and on top
 		// of them any call may be refused at the solver's choice
+		e.exportPoint()
 		if e.fault("NewConstMetric") {
 			return tuple{iface{}, e.newError("injected: prometheus refused the sample", nil)}
 		}
@@ -211,6 +220,7 @@ func init() {
 	stubs[promPkg+".NewConstHistogram"] = func(e *Exec, fn *ssa.Function, args []value) value {
 		d := (*args[0].(*value)).(*promDesc)
 		lv, _ := args[4].([]value)
+		e.exportPoint()
 		if e.fault("NewConstMetric") {
 			return tuple{iface{}, e.newError("injected: prometheus refused the sample", nil)}
 		}
